@@ -19,7 +19,15 @@ pub struct SCase {
 
 fn cmd_s() -> BoxedStrategy<PromptCmd> {
     let nexts = proptest::sample::select(vec!["n", "next", "N", "  next  ", "NEXT", "n ", "\tn"]);
-    let garbage = proptest::sample::select(vec!["", "foo", "print", "print mem", "12", "nn", "nextt", "print reg extra", "mov ax, 5", "print mem 5 ->", "quit now", "?", "print mem 7 : 1048576", "print mem 99999999999999999999 -> 5", "print mem 0 : 18446744073709551616", "print mem :340282366920938463463374607431768211456", "print mem 0x100000000000000000 -> 0x1", "print mem 0b11111111111111111111111111111111111111111111111111111111111111111 : 0", "print mem 5 -> 99999999999999999999999999"]);
+    // lines far longer than any command, ending in something that would be a command on its own
+    static LONG: std::sync::OnceLock<Vec<&'static str>> = std::sync::OnceLock::new();
+    let long = LONG.get_or_init(|| {
+        let mk = |n: usize, tail: &str| -> &'static str { Box::leak(format!("{}{}", "x".repeat(n), tail).into_boxed_str()) };
+        vec![mk(1023, "q"), mk(1024, "q"), mk(1024, "n"), mk(1500, " next"), mk(4096, "quit"), mk(255, "n"), mk(256, "q"), mk(70_000, "n")]
+    });
+    let mut garbage_list = vec!["", "foo", "print", "print mem", "12", "nn", "nextt", "print reg extra", "mov ax, 5", "print mem 5 ->", "quit now", "?", "print mem 7 : 1048576", "print mem 99999999999999999999 -> 5", "print mem 0 : 18446744073709551616", "print mem :340282366920938463463374607431768211456", "print mem 0x100000000000000000 -> 0x1", "print mem 0b11111111111111111111111111111111111111111111111111111111111111111 : 0", "print mem 5 -> 99999999999999999999999999"];
+    garbage_list.extend(long.iter().cloned());
+    let garbage = proptest::sample::select(garbage_list);
     let prints = prop_oneof![
         Just((PrintStmt::Reg, "print reg".to_string())),
         Just((PrintStmt::Flags, "PRINT FLAGS".to_string())),
@@ -158,6 +166,9 @@ fn eval(c: &SCase) -> CaseOutcome {
     }
     if rr.events.iter().any(|e| matches!(e, Ev::Int3(_))) {
         classes.push("c20/int3".into());
+    }
+    if c.script.iter().take(rr.stdin_used).any(|x| matches!(x, PromptCmd::Garbage(g) if g.len() >= 1024)) {
+        classes.push("c20/over-long-line-answered".into());
     }
     if unterminated && rr.stdin_used == c.script.len() {
         classes.push("c20/last-line-without-terminator-consumed".into());
@@ -337,5 +348,6 @@ pub fn run(ctx: &Ctx) {
     ctx.require_class("c20/stop/Quit", 10);
     ctx.require_class("c20/stop/Halt", 50);
     ctx.require_class("c20/self-targeting-jump-stepped", 20);
+    ctx.require_class("c20/over-long-line-answered", 10);
     ctx.require_class("c20/last-line-without-terminator-consumed", 10);
 }
